@@ -259,6 +259,24 @@ fn sweeps(rep: &Report) {
             }
         }
     }
+    // every digest that differs from the right one in a single bit is refused (all 16 bytes take part in the comparison)
+    for (ck, their) in [("secret", 0x1234_5678u32), ("", 0)] {
+        for bit in 0..128usize {
+            rep.add("evaluations", 1);
+            let mut m = HandshakeStateMachine::new("a@b".into(), "p@h".into(), ck.to_string(), DistributionFlags::default(), 1u32);
+            m.begin_connect().unwrap();
+            m.prepare_send_name().unwrap();
+            m.handle_challenge(&hs_challenge(u64::MAX, their, 1, b"p@h")).unwrap();
+            let reply = m.prepare_challenge_reply().unwrap();
+            let Ok(HsMsg::Reply { challenge, .. }) = read_hs_from_initiator(&reply[2..]) else { continue };
+            let mut d = dist_digest(ck, challenge);
+            d[bit / 8] ^= 1 << (bit % 8);
+            let ok = m.handle_challenge_ack(&hs_ack(&d)).is_ok();
+            if ok || m.state() == ConnectionState::Connected {
+                rep.violation("an acknowledgement digest that differs from the right one in one bit is accepted", json!({"flipped_bit": bit, "byte": bit / 8}));
+            }
+        }
+    }
     // names and creations
     for len in [1usize, 2, 100, 254, 255, 256, 300] {
         for (unit, label) in [("a", "ascii"), ("é", "utf8")] {
